@@ -4,8 +4,9 @@ import PyhfProofs.Properties.C06
 # C06 (continued) — the case-definition theorems hold of what `test_statistics.py` computes *now*
 
 `PyhfGen/Infer.lean` is regenerated on every run by symbolic execution of the five statistic functions with the two fits replaced
-by symbolic results (`fit` → `(muhat, vfree)`; `fixed_poi_fit μ` → objective `fixedVal μ`, so the value of μ the code hands to the
-conditional fit is part of the translation).  Each generated function is proved equal to the model's `testStat` for all real inputs.
+by uninterpreted functions of the POI bounds they are handed (`fit` with bounds `(l, h)` → `(muhatOf l h, vfreeOf l h)`;
+`fixed_poi_fit μ` → objective `fixedValOf l h μ`), so the value of μ *and the bounds* the code hands to the two fits are part of the
+translation: every statistic is proved to run both fits on the caller's bounds `(blo, bhi)`.  Each generated function is proved equal to the model's `testStat` for all real inputs.
 -/
 namespace Pyhf.Props.C06
 open Pyhf Pyhf.Infer
@@ -18,30 +19,30 @@ macro "gen_ts" : tactic =>
   `(tactic| (simp only [testStat, qmuLike, Infer.q0, tmuLike, fitsOf, List.getD_cons_zero] <;> norm_num <;> split_ifs <;>
       first | rfl | (exfalso; linarith) | linarith | simp_all))
 
-theorem gen_qmu_eq (fixedVal : ℝ → ℝ) (fixedPars : ℝ → List ℝ) (vfree muhat mu : ℝ) (rest : List ℝ) :
-    Gen.qmu fixedVal vfree muhat mu
-      = (testStat .q (fitsOf fixedVal fixedPars vfree muhat rest).1 (fitsOf fixedVal fixedPars vfree muhat rest).2 0 mu).1 := by
+theorem gen_qmu_eq (fixedValOf : ℝ → ℝ → ℝ → ℝ) (vfreeOf muhatOf : ℝ → ℝ → ℝ) (fixedPars : ℝ → List ℝ) (blo bhi mu : ℝ) (rest : List ℝ) :
+    Gen.qmu fixedValOf vfreeOf muhatOf blo bhi mu
+      = (testStat .q (fitsOf (fixedValOf blo bhi) fixedPars (vfreeOf blo bhi) (muhatOf blo bhi) rest).1 (fitsOf (fixedValOf blo bhi) fixedPars (vfreeOf blo bhi) (muhatOf blo bhi) rest).2 0 mu).1 := by
   unfold Gen.qmu; gen_ts
 
-theorem gen_qmu_tilde_eq (fixedVal : ℝ → ℝ) (fixedPars : ℝ → List ℝ) (vfree muhat mu : ℝ) (rest : List ℝ) :
-    Gen.qmu_tilde fixedVal vfree muhat mu
-      = (testStat .qtilde (fitsOf fixedVal fixedPars vfree muhat rest).1 (fitsOf fixedVal fixedPars vfree muhat rest).2 0 mu).1 := by
+theorem gen_qmu_tilde_eq (fixedValOf : ℝ → ℝ → ℝ → ℝ) (vfreeOf muhatOf : ℝ → ℝ → ℝ) (fixedPars : ℝ → List ℝ) (blo bhi mu : ℝ) (rest : List ℝ) :
+    Gen.qmu_tilde fixedValOf vfreeOf muhatOf blo bhi mu
+      = (testStat .qtilde (fitsOf (fixedValOf blo bhi) fixedPars (vfreeOf blo bhi) (muhatOf blo bhi) rest).1 (fitsOf (fixedValOf blo bhi) fixedPars (vfreeOf blo bhi) (muhatOf blo bhi) rest).2 0 mu).1 := by
   unfold Gen.qmu_tilde; gen_ts
 
-theorem gen_tmu_eq (fixedVal : ℝ → ℝ) (fixedPars : ℝ → List ℝ) (vfree muhat mu : ℝ) (rest : List ℝ) :
-    Gen.tmu fixedVal vfree muhat mu
-      = (testStat .t (fitsOf fixedVal fixedPars vfree muhat rest).1 (fitsOf fixedVal fixedPars vfree muhat rest).2 0 mu).1 := by
+theorem gen_tmu_eq (fixedValOf : ℝ → ℝ → ℝ → ℝ) (vfreeOf muhatOf : ℝ → ℝ → ℝ) (fixedPars : ℝ → List ℝ) (blo bhi mu : ℝ) (rest : List ℝ) :
+    Gen.tmu fixedValOf vfreeOf muhatOf blo bhi mu
+      = (testStat .t (fitsOf (fixedValOf blo bhi) fixedPars (vfreeOf blo bhi) (muhatOf blo bhi) rest).1 (fitsOf (fixedValOf blo bhi) fixedPars (vfreeOf blo bhi) (muhatOf blo bhi) rest).2 0 mu).1 := by
   unfold Gen.tmu; gen_ts
 
-theorem gen_tmu_tilde_eq (fixedVal : ℝ → ℝ) (fixedPars : ℝ → List ℝ) (vfree muhat mu : ℝ) (rest : List ℝ) :
-    Gen.tmu_tilde fixedVal vfree muhat mu
-      = (testStat .ttilde (fitsOf fixedVal fixedPars vfree muhat rest).1 (fitsOf fixedVal fixedPars vfree muhat rest).2 0 mu).1 := by
+theorem gen_tmu_tilde_eq (fixedValOf : ℝ → ℝ → ℝ → ℝ) (vfreeOf muhatOf : ℝ → ℝ → ℝ) (fixedPars : ℝ → List ℝ) (blo bhi mu : ℝ) (rest : List ℝ) :
+    Gen.tmu_tilde fixedValOf vfreeOf muhatOf blo bhi mu
+      = (testStat .ttilde (fitsOf (fixedValOf blo bhi) fixedPars (vfreeOf blo bhi) (muhatOf blo bhi) rest).1 (fitsOf (fixedValOf blo bhi) fixedPars (vfreeOf blo bhi) (muhatOf blo bhi) rest).2 0 mu).1 := by
   unfold Gen.tmu_tilde; gen_ts
 
 /-- `q0` tests μ = 0 whatever value the caller passes (the generated code evaluates `fixedVal 0`) -/
-theorem gen_q0_eq (fixedVal : ℝ → ℝ) (fixedPars : ℝ → List ℝ) (vfree muhat mu : ℝ) (rest : List ℝ) :
-    Gen.q0 fixedVal vfree muhat mu
-      = (testStat .q0 (fitsOf fixedVal fixedPars vfree muhat rest).1 (fitsOf fixedVal fixedPars vfree muhat rest).2 0 mu).1 := by
+theorem gen_q0_eq (fixedValOf : ℝ → ℝ → ℝ → ℝ) (vfreeOf muhatOf : ℝ → ℝ → ℝ) (fixedPars : ℝ → List ℝ) (blo bhi mu : ℝ) (rest : List ℝ) :
+    Gen.q0 fixedValOf vfreeOf muhatOf blo bhi mu
+      = (testStat .q0 (fitsOf (fixedValOf blo bhi) fixedPars (vfreeOf blo bhi) (muhatOf blo bhi) rest).1 (fitsOf (fixedValOf blo bhi) fixedPars (vfreeOf blo bhi) (muhatOf blo bhi) rest).2 0 mu).1 := by
   unfold Gen.q0
   by_cases hmu : mu = 0
   · subst hmu; gen_ts
@@ -50,16 +51,16 @@ theorem gen_q0_eq (fixedVal : ℝ → ℝ) (fixedPars : ℝ → List ℝ) (vfree
 theorem zero_lit : (0.0 : ℝ) = 0 := by norm_num
 
 /-- consequences for the current source: non-negative, and the one-sided rules -/
-theorem gen_statistics_nonneg (fixedVal : ℝ → ℝ) (vfree muhat mu : ℝ) :
-    0 ≤ Gen.qmu fixedVal vfree muhat mu ∧ 0 ≤ Gen.qmu_tilde fixedVal vfree muhat mu ∧ 0 ≤ Gen.tmu fixedVal vfree muhat mu ∧
-    0 ≤ Gen.tmu_tilde fixedVal vfree muhat mu ∧ 0 ≤ Gen.q0 fixedVal vfree muhat mu := by
+theorem gen_statistics_nonneg (fixedValOf : ℝ → ℝ → ℝ → ℝ) (vfreeOf muhatOf : ℝ → ℝ → ℝ) (blo bhi mu : ℝ) :
+    0 ≤ Gen.qmu fixedValOf vfreeOf muhatOf blo bhi mu ∧ 0 ≤ Gen.qmu_tilde fixedValOf vfreeOf muhatOf blo bhi mu ∧ 0 ≤ Gen.tmu fixedValOf vfreeOf muhatOf blo bhi mu ∧
+    0 ≤ Gen.tmu_tilde fixedValOf vfreeOf muhatOf blo bhi mu ∧ 0 ≤ Gen.q0 fixedValOf vfreeOf muhatOf blo bhi mu := by
   unfold Gen.qmu Gen.qmu_tilde Gen.tmu Gen.tmu_tilde Gen.q0
   refine ⟨?_, ?_, ?_, ?_, ?_⟩ <;> norm_num <;> split_ifs <;> first | linarith | norm_num
 
-theorem gen_qmu_zero_above (fixedVal : ℝ → ℝ) (vfree muhat mu : ℝ) (h : mu < muhat) : Gen.qmu fixedVal vfree muhat mu = 0 := by
+theorem gen_qmu_zero_above (fixedValOf : ℝ → ℝ → ℝ → ℝ) (vfreeOf muhatOf : ℝ → ℝ → ℝ) (blo bhi mu : ℝ) (h : mu < muhatOf blo bhi) : Gen.qmu fixedValOf vfreeOf muhatOf blo bhi mu = 0 := by
   unfold Gen.qmu; simp only [zero_lit]; split_ifs <;> first | rfl | (exfalso; linarith)
 
-theorem gen_q0_zero_below (fixedVal : ℝ → ℝ) (vfree muhat mu : ℝ) (h : muhat < 0) : Gen.q0 fixedVal vfree muhat mu = 0 := by
+theorem gen_q0_zero_below (fixedValOf : ℝ → ℝ → ℝ → ℝ) (vfreeOf muhatOf : ℝ → ℝ → ℝ) (blo bhi mu : ℝ) (h : muhatOf blo bhi < 0) : Gen.q0 fixedValOf vfreeOf muhatOf blo bhi mu = 0 := by
   unfold Gen.q0; simp only [zero_lit]; split_ifs <;> first | rfl | (exfalso; linarith)
 
 end Pyhf.Props.C06
